@@ -585,7 +585,59 @@ pub async fn run(cx: &mut Ctx) {
         }
     }
     let _ = a.shutdown().await;
+    let before_shutdown: Option<(String, Vec<Row>)> = match names.first() {
+        Some(n) => b.exec(&format!("SELECT * FROM {n}")).await.rows().cloned().map(|r| (n.clone(), r)),
+        None => None,
+    };
     let _ = b.shutdown().await;
+    // ---- one more failure mode: a statement issued after shutdown() (the background tasks are
+    // gone). Whatever it reports must be what a reopened copy of the directory shows.
+    if cx.vio.is_empty() && cx.harness_error.is_none() {
+        if let (Some((n, before)), true) = (&before_shutdown, true) {
+            let Some((def, _)) = model.tables.get(n).cloned() else { return };
+            let row = probe_row(&def, 7);
+            let ins = Stmt::Insert { table: n.clone(), cols: vec![], rows: vec![row.clone()] };
+            let sql = ins.sql();
+            let out = b.exec(&sql).await;
+            quiesce().await;
+            cx.stats.evaluations += 1;
+            cx.log.push(format!("after shutdown: {sql} => {}", out.brief()));
+            *cx.stats.faults.entry("statement-after-shutdown".into()).or_default() += 1;
+            let _ = std::fs::remove_dir_all(&root_c);
+            let _ = std::fs::create_dir_all(&root_c);
+            let copy = Tree::from_dir(&root_b).and_then(|tr| tr.materialise(&root_c));
+            if let (Ok(()), Ok(c)) = (copy, Db::open(knobs.options(&root_c)).await) {
+                let seen = c.exec(&format!("SELECT * FROM {n}")).await.rows().cloned();
+                if let Some(seen) = seen {
+                    let has = seen.iter().filter(|r| **r == row).count();
+                    let had = before.iter().filter(|r| **r == row).count();
+                    let applied = has > had;
+                    if applied != out.is_ok() {
+                        let v = Violation::new(
+                            "C15",
+                            if out.is_ok() {
+                                "acknowledged-despite-io-error-but-not-durable"
+                            } else {
+                                "failed-dml-visible-after-reopen"
+                            },
+                            None,
+                            format!(
+                                "{sql} issued after shutdown() returned {}, but a reopened copy of the directory {} the row",
+                                out.brief(),
+                                if applied { "holds" } else { "does not hold" }
+                            ),
+                        )
+                        .with_sig("after-shutdown");
+                        cx.violate(v);
+                    }
+                }
+                let _ = c.shutdown().await;
+                drop(c);
+                quiesce().await;
+            }
+            let _ = std::fs::remove_dir_all(&root_c);
+        }
+    }
     cx.stats.nontrivial = fired_total > 0;
     cx.stats.sim_ns = now_ns(t0) as u64;
     cx.stats.probes.insert("injections".into(), injections);
